@@ -24,6 +24,75 @@ def _with_pi(orig):
 if not getattr(py2lean.Translator.expr_real, '_c04_pi', False):
     py2lean.Translator.expr_real = _with_pi(py2lean.Translator.expr_real)
 
+_HPARS = ['amp', 'xo', 'yo', 'sx', 'sy', 'theta']
+
+
+def _name_hessian_entries(fn):
+    """`fitting.hessian` stores its second-derivative expressions into `hmat[j][k]`.  Give every
+    upper-triangle entry a name the translator can follow: inside the block `if P_var:` a statement
+    `hmat[j][k] <op>= e` becomes `h_P_Q <op>= e` when it sits inside `if Q_var:` and `h_P_P <op>= e` when it
+    sits directly in the block (the diagonal).  The symmetric copies `hmat[j][k] = hmat[...][...]` of the lower
+    triangle are dropped (they are copies, not expressions)."""
+    def is_hmat(t):
+        return isinstance(t, ast.Subscript) and isinstance(t.value, ast.Subscript) \
+            and isinstance(t.value.value, ast.Name) and t.value.value.id == 'hmat'
+
+    def var_of(test):
+        if isinstance(test, ast.Name) and test.id.endswith('_var') and test.id[:-4] in _HPARS:
+            return test.id[:-4]
+        return None
+
+    def rename(stmts, name):
+        out = []
+        for st in stmts:
+            if isinstance(st, ast.Assign) and len(st.targets) == 1 and is_hmat(st.targets[0]):
+                if is_hmat(st.value):
+                    continue
+                st = ast.Assign(targets=[ast.Name(id=name, ctx=ast.Store())], value=st.value)
+            elif isinstance(st, ast.AugAssign) and is_hmat(st.target):
+                st = ast.AugAssign(target=ast.Name(id=name, ctx=ast.Store()), op=st.op, value=st.value)
+            out.append(st)
+        return out
+
+    def block(stmts, P):
+        out = []
+        for st in stmts:
+            if isinstance(st, ast.If) and var_of(st.test):
+                Q = var_of(st.test)
+                if _HPARS.index(Q) < _HPARS.index(P):
+                    continue                      # lower triangle: symmetric copy
+                out.append(ast.If(test=st.test, body=rename(st.body, f'h_{P}_{Q}') or [ast.Pass()], orelse=[]))
+            else:
+                out.extend(rename([st], f'h_{P}_{P}'))
+        return out
+
+    def walk(stmts):
+        out = []
+        for st in stmts:
+            if isinstance(st, ast.For):
+                st = ast.For(target=st.target, iter=st.iter, body=walk(st.body), orelse=[])
+            elif isinstance(st, ast.If) and var_of(st.test):
+                st = ast.If(test=st.test, body=block(st.body, var_of(st.test)), orelse=[])
+            out.append(st)
+        return out
+
+    new = ast.FunctionDef(name=fn.name, args=fn.args, body=walk(fn.body), decorator_list=[], returns=None)
+    return ast.fix_missing_locations(ast.copy_location(new, fn))
+
+
+def _with_hessian(orig):
+    def find_function(tree, qualname):
+        fn = orig(tree, qualname)
+        if qualname == 'hessian':
+            fn = _name_hessian_entries(fn)
+        return fn
+    find_function._c04_hessian = True
+    return find_function
+
+
+if not getattr(py2lean.find_function, '_c04_hessian', False):
+    py2lean.find_function = _with_hessian(py2lean.find_function)
+
 _P = ['x', 'y', 'amp', 'xo', 'yo', 'sx', 'sy', 'theta']
 _PARAMS = {p: 'A' for p in _P}
 _H = 'Aegean.Model.C04'
@@ -45,4 +114,14 @@ TARGETS = [
                   ('dmdsx', 'dmdsx'), ('dmdsy', 'dmdsy'), ('dmdtheta', 'dmdtheta')],
          fallback={n: _fb(n) for n in ['dmds', 'dmdxo', 'dmdyo', 'dmdsx', 'dmdsy', 'dmdtheta']},
          all_params=_P),
+    # OBSERVATION ONLY (not part of the C04 verdict: the hessian is not handed to the optimiser; it feeds
+    # RB_bias).  The 21 upper-triangle second-derivative expressions of `fitting.hessian`, named h_P_Q.
+    # No fallback: if they become untranslatable they are simply absent and only
+    # Aegean/Proofs/C04Hessian.lean (not imported by the property file) stops building.
+    dict(file='AegeanTools/fitting.py', func='hessian', mode='real',
+         params=_PARAMS,
+         subst={f"pars[prefix + '{p}'].value": p for p in _HPARS},
+         calls={'elliptical_gaussian': ('gauss', 8)},
+         outputs=[(f'h_{p}_{q}', f'h_{p}_{q}') for i, p in enumerate(_HPARS) for q in _HPARS[i:]],
+         fallback={}, all_params=_P),
 ]
